@@ -15,7 +15,8 @@ Import ListNotations.
 Inductive lt := Static | Lt (i : nat).
 
 (* the types that can carry lifetimes, after lowering.  [opt]: Option<..>; [borrow = None]: Box<..> / owned;
-   [sp]: the type is written `Self` in the source (ast::TypeName::SelfType) rather than by name *)
+   [sp]: the type is written `Self` in the source (ast::TypeName::SelfType) rather than by name, or its borrow is
+   elided in the source (Elision.lower_ret1): the two spellings for which the AST records no implied bound *)
 Inductive ty :=
 | TPrim
 | TOpaque (sp : bool) (opt : bool) (borrow : option lt) (tid : nat) (args : list lt)
